@@ -17,11 +17,45 @@ Inductive jv :=
 | JNull | JBool (b : bool) | JNum (z : Z) | JStr (s : key) | JEmpty
 | JArr (l : list jv) | JObj (m : list (key * jv)).
 
+(* A slice bound as the Go code sees it: any JSON number (int, float64, *big.Int, json.Number).  What the
+   rounding functions of func.go need of its value x: floor(x) and whether x is an integer; NaN apart.
+   (+-Inf, 1e300, big integers: a huge [bfloor]; -0.0 = BNum 0 true.) *)
+Inductive bound := BNum (bfloor : Z) (isint : bool) | BNaN.
+Definition bz (z : Z) : bound := BNum z true.
+
+Definition min_int : Z := -9223372036854775808.
+Definition max_int : Z := 9223372036854775807.
+(* toInt saturates what does not fit an int; floatToInt(NaN) = math.MinInt (both comparisons are false) *)
+Definition sat (z : Z) : Z := Z.max min_int (Z.min max_int z).
+(* toInt on a float: int(x) truncates toward zero *)
+Definition b_trunc (b : bound) : Z :=
+  match b with
+  | BNum fl true => sat fl
+  | BNum fl false => sat (if fl <? 0 then fl + 1 else fl)
+  | BNaN => min_int
+  end.
+(* toIntCeil: math.Ceil first *)
+Definition b_ceil (b : bound) : Z :=
+  match b with
+  | BNum fl true => sat fl
+  | BNum fl false => sat (fl + 1)
+  | BNaN => min_int
+  end.
+
+(* The READ side (func.go `slice`, used by .[s:e], funcIndex2 and getpath) and the WRITE side
+   (`updateArraySlice`, used by setpath / delpaths / = / |= / del) compute their bounds in two separate
+   functions of func.go; they are transcribed separately so that a divergence between them is visible
+   in the model (docs/C02.md).  In the current code both use toInt for start and toIntCeil for end. *)
+Definition read_start (b : bound) : Z := b_trunc b.
+Definition read_end (b : bound) : Z := b_ceil b.
+Definition write_start (b : bound) : Z := b_trunc b.
+Definition write_end (b : bound) : Z := b_ceil b.
+
 (* path components as update/getpath distinguish them *)
 Inductive pcomp :=
 | PK (k : key)                       (* string *)
 | PI (i : Z)                         (* number (toInt) *)
-| PS (s e : option Z)                (* {"start":s,"end":e} with null or integer bounds *)
+| PS (s e : option bound)            (* {"start":s,"end":e} with null or numeric bounds *)
 | PBad.                              (* null, bool, array, or an object without start/end: always an error *)
 
 Definition path := list pcomp.
@@ -61,10 +95,12 @@ Definition clamp (i lo hi : Z) : Z :=
 
 Definition zlen {X} (l : list X) : Z := Z.of_nat (length l).
 
-Definition slice_bounds (s e : option Z) (n : Z) : Z * Z :=
-  let st := match s with Some i => clamp i 0 n | None => 0 end in
-  let en := match e with Some i => clamp i st n | None => n end in
+Definition slice_bounds_gen (fs fe : bound -> Z) (s e : option bound) (n : Z) : Z * Z :=
+  let st := match s with Some b => clamp (fs b) 0 n | None => 0 end in
+  let en := match e with Some b => clamp (fe b) st n | None => n end in
   (st, en).
+Definition slice_bounds_read := slice_bounds_gen read_start read_end.
+Definition slice_bounds_write := slice_bounds_gen write_start write_end.
 
 Definition sub {X} (l : list X) (st en : Z) : list X :=
   firstn (Z.to_nat (en - st)) (skipn (Z.to_nat st) l).
@@ -83,7 +119,7 @@ Definition index2 (v : jv) (c : pcomp) : option jv :=
             | _ => None end
   | PS s e => match v with
               | JNull => Some JNull
-              | JArr l => let '(st, en) := slice_bounds s e (zlen l) in Some (JArr (sub l st en))
+              | JArr l => let '(st, en) := slice_bounds_read s e (zlen l) in Some (JArr (sub l st en))
               | _ => None end
   | PBad => None
   end.
@@ -143,7 +179,7 @@ Fixpoint update (v : jv) (p : path) (n : jv) : option jv :=
       end
   | PS s e :: r =>
       let upd_sl (l : list jv) :=
-        let '(st, en) := slice_bounds s e (zlen l) in
+        let '(st, en) := slice_bounds_write s e (zlen l) in
         if (st =? en) && is_empty n then Some v
         else match update (JArr (sub l st en)) r n with
              | Some (JArr u) => Some (JArr (firstn (Z.to_nat st) l ++ u ++ skipn (Z.to_nat en) l))
